@@ -172,13 +172,16 @@ class Pointwise:
 class FiniteAt:
     """Special-value obligation: all outputs finite at a fully polarised point / masked at n = 0."""
 
-    def __init__(self, f, zeta_value):
+    def __init__(self, f, zeta_value, empty_channel_gradient=False):
         self.f, self.zeta_value = f, zeta_value
         self.gga = f.startswith("gga")
+        # True: the gradient of the empty channel is left generic (a density below 1e-16 of the other one rounds to zeta = +-1 although both
+        # the density and its gradient are positive numbers)
+        self.empty_channel_gradient = empty_channel_gradient
 
     def __call__(self, ob, tier, seed):
         S = X.Setup(2, self.gga, zeta_value=self.zeta_value)
-        if self.gga:
+        if self.gga and not self.empty_channel_gradient:
             # the vanishing spin channel has a vanishing gradient
             dead = 1 if self.zeta_value == 1 else 0
             for p in range(S.npts):
@@ -192,7 +195,7 @@ class FiniteAt:
         for label, a in outs:
             for idx, v in np.ndenumerate(np.asarray(a, dtype=object)):
                 if isinstance(v, Special):
-                    wit = dict(f=self.f, zeta=self.zeta_value, output=label, index=list(idx), value=repr(v))
+                    wit = dict(f=self.f, zeta=self.zeta_value, output=label, index=list(idx), value=repr(v), empty_channel_gradient=self.empty_channel_gradient)
                     ok, info = replay_finite(wit)
                     return Result(REFUTED, backend="engine-A/special-values", witness=wit, replayed=ok, replay_info=info,
                                   detail=f"{label}{list(idx)} is {v!r} at zeta={self.zeta_value} (one spin density exactly zero)")
@@ -355,6 +358,10 @@ def _register():
                                 functions=[fn_of(f, 2), "eminus.xc.utils:get_xc"], run=FiniteAt(f, zv),
                                 assumes=("reals",),
                                 doc=f"exc, vxc, vsigma finite when one spin density (and its gradient) is exactly zero (zeta={zv})"))
+            if f.startswith("gga"):
+                register(Obligation(name=f"C02.{f}_spin.finite_zeta_{tag}.gradient_in_empty_channel", prop=PROP, engine="A",
+                                    functions=[fn_of(f, 2), "eminus.xc.utils:get_xc"], run=FiniteAt(f, zv, empty_channel_gradient=True), assumes=("reals",),
+                                    doc=f"exc, vxc, vsigma finite when one spin density is exactly zero (zeta={zv}) while its gradient is not"))
     # temperature-dependent LDA family: T = 0 exactly and symbolic T > 0
     for f in X.KSDT:
         for Nspin in ((1,) if f == "lda_xc_corr_ksdt" else (1, 2)):
@@ -395,3 +402,209 @@ def _register():
 
 
 _register()
+
+
+# ------------------------------------------------------------------------------------------------
+# the convenience wrappers hand every argument on to get_xc (the potential the SCF uses is the one proved above)
+# ------------------------------------------------------------------------------------------------
+
+
+class WrapperForwards:
+    """get_exc / get_vxc: every parameter reaches get_xc in its own slot and the result is the right component of what get_xc returns
+    (symbolic execution of the wrapper with get_xc as an uninterpreted callee that records its bound arguments)."""
+
+    def __init__(self, fn):
+        self.fn = fn
+
+    def __call__(self, ob, tier, seed):
+        import inspect
+
+        from pycv.wp.explore import explore, named
+        from pycv.wp.interp import OutsideSubset, PyRaise, World
+        from pycv.wp.numext import NUM_EXT
+
+        try:
+            w = World()
+            mod = w.module("eminus.xc.utils")
+            names = ["xc", "n_spin", "Nspin", "dn_spin", "tau", "xc_params", "dens_threshold"]
+            vals = {n: named(w, f"arg:{n}", "val") for n in names}
+            seen = {}
+            outs = [named(w, f"out:{k}", "val") for k in ("exc", "vxc", "vsigma", "vtau")]
+
+            def get_xc(it, a, k):
+                bound = dict(zip(names, a))
+                bound.update(k)
+                seen.update(bound)
+                return tuple(outs)
+
+            ext = dict(NUM_EXT)
+            ext["func:get_xc"] = get_xc
+
+            def run(it):
+                f = it.lookup_global(self.fn, mod)
+                return it.call(f, [vals["xc"], vals["n_spin"], vals["Nspin"]], {n: vals[n] for n in names[3:]}), None
+
+            res = explore(w, run, assumptions=[], ext=ext, max_paths=4)
+            if len(res) != 1 or res[0].outcome != "return":
+                raise OutsideSubset(f"{self.fn}: {[(r.outcome, str(r.value)[:60]) for r in res]}")
+            bad = [n for n in names if seen.get(n) is not vals[n]]
+            want = (outs[0],) if self.fn == "get_exc" else tuple(outs[1:])
+            got = res[0].value if isinstance(res[0].value, tuple) else (res[0].value,)
+            if bad or len(got) != len(want) or any(g is not x for g, x in zip(got, want)):
+                wit = dict(wrapper=self.fn, not_forwarded=bad)
+                ok, info = self.replay(wit)
+                return Result(REFUTED if ok else UNDECIDED, backend="symbolic-execution", witness=wit, replayed=ok, replay_info=info,
+                              detail=f"{self.fn}: " + (f"parameters {bad} do not reach get_xc in their slot" if bad else "returns other components than get_xc computes"))
+            return Result(DISCHARGED, backend="symbolic-execution", stats=dict(parameters=len(names)))
+        except (OutsideSubset, PyRaise, TypeError, AttributeError, KeyError, ValueError, IndexError) as e:
+            ok, info = self.replay({})
+            if ok:
+                return Result(REFUTED, backend="native-contract-evaluation", witness=dict(wrapper=self.fn), replayed=True, replay_info=info,
+                              detail=f"{self.fn} differs from get_xc for non-default parameters ({type(e).__name__}: {e})")
+            return Result(UNDECIDED, backend="engine-Z", detail=f"outside subset: {type(e).__name__}: {e}")
+
+    def replay(self, wit):
+        import eminus
+        from eminus.xc import utils as U
+
+        eminus.config.backend = "numpy"
+        rng = np.random.default_rng(3)
+        bad = []
+        for xc, par in (("lda,gdsmfb", {"T": 0.4}), ("pbe", {"mu": 0.3, "beta": 0.05}), ("lda,vwn", {"A": 0.02}), ("lda,ksdt", {"T": 1.2})):
+            for Nspin in (1, 2):
+                n = rng.uniform(0.05, 1.0, (Nspin, 7))
+                dn = rng.uniform(-0.3, 0.3, (Nspin, 7, 3))
+                xcl = U.parse_functionals(xc)
+                try:
+                    ref = U.get_xc(xcl, n, Nspin, dn, None, par, 1e-3)
+                    exc = U.get_exc(xcl, n, Nspin, dn, None, par, 1e-3)
+                    vxc = U.get_vxc(xcl, n, Nspin, dn, None, par, 1e-3)
+                except Exception as e:  # noqa: BLE001
+                    bad.append(dict(xc=xc, Nspin=Nspin, raised=f"{type(e).__name__}: {e}"))
+                    continue
+                d1 = float(np.abs(np.asarray(exc) - np.asarray(ref[0])).max())
+                d2 = float(np.abs(np.asarray(vxc[0]) - np.asarray(ref[1])).max())
+                d3 = 0.0 if ref[2] is None else float(np.abs(np.asarray(vxc[1]) - np.asarray(ref[2])).max())
+                if max(d1, d2, d3) > 0:
+                    bad.append(dict(xc=xc, Nspin=Nspin, xc_params=par, exc_diff=d1, vxc_diff=d2, vsigma_diff=d3))
+        return bool(bad), dict(check="get_exc / get_vxc vs get_xc with non-default xc_params and a density threshold", failing=bad[:4])
+
+
+for _w in ("get_exc", "get_vxc"):
+    register(Obligation(name=f"C02.{_w}.forwards_every_argument", prop=PROP, engine="Z", functions=[f"eminus.xc.utils:{_w}", "eminus.xc.utils:get_xc"], run=WrapperForwards(_w),
+                        assumes=("engineZ",), doc=f"{_w} hands xc, densities, Nspin, gradients, tau, xc_params and the density threshold on to get_xc and returns its components"))
+
+
+# ------------------------------------------------------------------------------------------------
+# frame: the functionals do not modify the arrays they are given (get_xc hands the SAME arrays to exchange and then to correlation)
+# ------------------------------------------------------------------------------------------------
+
+
+class InputsNotModified:
+    """Writes-frame of every function in eminus/xc/*.py, decided on the AST: no augmented assignment, item store, in-place method or out= argument
+    whose target is a parameter or a view of one (names bound to a parameter or to a subscript / slice of one are views). Native replay: every
+    implemented functional is called on arrays whose bytes are compared before and after."""
+
+    INPLACE = {"sort", "fill", "resize", "put", "itemset", "partition", "setfield", "clip_", "mul_", "add_", "sub_", "div_", "copy_", "zero_"}
+
+    def scan(self):
+        import ast
+        import glob
+        import os
+
+        root = os.path.join(os.environ.get("EMINUS_REPO", "/repo"), "eminus", "xc")
+        bad, nfun = [], 0
+        for path in sorted(glob.glob(os.path.join(root, "*.py"))):
+            tree = ast.parse(open(path).read())
+            for fn in [n for n in ast.walk(tree) if isinstance(n, ast.FunctionDef)]:
+                params = {a.arg for a in fn.args.args + fn.args.kwonlyargs} - {"self", "kwargs"}
+                if not params:
+                    continue
+                nfun += 1
+                views = set(params)
+                changed = True
+
+                def root_name(e):
+                    while isinstance(e, (ast.Subscript, ast.Attribute)) and not (isinstance(e, ast.Attribute) and e.attr not in ("T", "real", "imag")):
+                        e = e.value
+                    return e.id if isinstance(e, ast.Name) else None
+
+                while changed:
+                    changed = False
+                    for n in ast.walk(fn):
+                        if isinstance(n, ast.Assign) and len(n.targets) == 1 and isinstance(n.targets[0], ast.Name) and isinstance(n.value, (ast.Name, ast.Subscript, ast.Attribute)):
+                            r = root_name(n.value)
+                            if r in views and n.targets[0].id not in views:
+                                views.add(n.targets[0].id)
+                                changed = True
+                # a parameter that is REBOUND to a fresh value first (x = x * 2) is no longer the caller's array: handled conservatively - any rebinding
+                # of a view name by a non-view expression removes it from the set from that line on
+                rebound = {}
+                for n in ast.walk(fn):
+                    if isinstance(n, ast.Assign):
+                        for t in n.targets:
+                            if isinstance(t, ast.Name) and t.id in views and not (isinstance(n.value, (ast.Name, ast.Subscript, ast.Attribute)) and root_name(n.value) in views):
+                                rebound[t.id] = min(rebound.get(t.id, 10**9), n.lineno)
+                for n in ast.walk(fn):
+                    tg = None
+                    if isinstance(n, ast.AugAssign):
+                        tg = n.target
+                    elif isinstance(n, ast.Assign):
+                        tg = next((t for t in n.targets if isinstance(t, ast.Subscript)), None)
+                    elif isinstance(n, ast.Call) and isinstance(n.func, ast.Attribute) and n.func.attr in self.INPLACE:
+                        tg = n.func.value
+                    elif isinstance(n, ast.Call):
+                        for k in n.keywords:
+                            if k.arg == "out":
+                                tg = k.value
+                    if tg is None:
+                        continue
+                    r = root_name(tg)
+                    if r in views and n.lineno < rebound.get(r, 10**9) and not (isinstance(n, ast.AugAssign) and isinstance(tg, ast.Name) and False):
+                        # `x += 1` on a bare NAME rebinds immutable scalars but modifies arrays in place: parameters here are arrays
+                        bad.append(f"{os.path.basename(path)}:{fn.name}:{n.lineno}: `{ast.unparse(n)[:70]}` writes into the argument `{r}`")
+        return bad, nfun
+
+    def __call__(self, ob, tier, seed):
+        bad, nfun = self.scan()
+        if nfun < 20:
+            return Result(UNDECIDED, backend="ast-frame", detail=f"only {nfun} functions found (vacuous)")
+        if bad:
+            ok, info = self.replay({})
+            return Result(REFUTED if ok else UNDECIDED, backend="ast-frame", witness=dict(writes=bad[:5]), replayed=ok, replay_info=info, detail=f"functional modifies its input: {bad[0]}")
+        return Result(DISCHARGED, backend="ast-frame", stats=dict(functions=nfun))
+
+    def replay(self, wit):
+        import eminus
+        from eminus.xc import utils as U
+
+        eminus.config.backend = "numpy"
+        rng = np.random.default_rng(9)
+        bad = []
+        for name, fn in sorted(U.IMPLEMENTED.items()):
+            spin = name.endswith("_spin")
+            n = rng.uniform(0.05, 1.0, 6)
+            zeta = rng.uniform(-0.9, 0.9, 6)
+            dn = rng.uniform(-0.3, 0.3, (2 if spin else 1, 6, 3))
+            args = dict(n=n.copy(), zeta=zeta.copy(), dn_spin=dn.copy())
+            try:
+                fn(args["n"], *([args["zeta"]] if spin else []), dn_spin=args["dn_spin"], Nspin=2 if spin else 1, T=0.3)
+            except Exception as e:  # noqa: BLE001
+                bad.append(dict(functional=name, raised=f"{type(e).__name__}: {e}"))
+                continue
+            for k, before in (("n", n), ("zeta", zeta), ("dn_spin", dn)):
+                if not np.array_equal(args[k], before):
+                    bad.append(dict(functional=name, modified_argument=k, max_change=float(np.abs(args[k] - before).max())))
+        # through get_xc: exchange and correlation see the same gradient
+        for xc in ("chachiyo", "pbe", "pbesol"):
+            n = rng.uniform(0.05, 1.0, (2, 6))
+            dn = rng.uniform(-0.3, 0.3, (2, 6, 3))
+            keep = (n.copy(), dn.copy())
+            U.get_xc(U.parse_functionals(xc), n, 2, dn)
+            if not (np.array_equal(n, keep[0]) and np.array_equal(dn, keep[1])):
+                bad.append(dict(get_xc=xc, modified_argument="n_spin / dn_spin"))
+        return bool(bad), dict(check="bytes of the input arrays before and after every implemented functional / get_xc", failing=bad[:5])
+
+
+register(Obligation(name="C02.functionals.inputs_not_modified", prop=PROP, engine="Z", functions=["eminus.xc.utils:get_xc", "eminus.xc.*:*"], run=InputsNotModified(), assumes=("cpython",),
+                    doc="frame: no function of eminus/xc writes into its array arguments (get_xc hands the same arrays to exchange and correlation; the caller keeps using them)"))
